@@ -14,6 +14,9 @@ pub enum Op {
     Write(Vec<u8>),
     /// std's `write_all` loop, spelled out as individual `write` calls
     WriteAll(Vec<u8>),
+    /// one `write_vectored` call with these slices (`BodyWriter` has std's default: a `write`
+    /// of the first non-empty slice, which is what the model is told)
+    WriteV(Vec<Vec<u8>>),
     Flush,
     Abort,
     DropWriter,
@@ -154,10 +157,27 @@ impl Session {
     }
 
     fn write_once(&mut self, bs: &[u8]) -> Obs {
+        self.write_impl(bs, None)
+    }
+
+    /// `write_vectored(slices)`: recorded as a write of the first non-empty slice; the bytes
+    /// the call claims to have accepted are the first `n` of the concatenation.
+    fn write_vectored_once(&mut self, slices: &[Vec<u8>]) -> Obs {
+        let first: Vec<u8> = slices.iter().find(|s| !s.is_empty()).cloned().unwrap_or_default();
+        self.write_impl(&first, Some(slices))
+    }
+
+    fn write_impl(&mut self, bs: &[u8], vectored: Option<&[Vec<u8>]>) -> Obs {
         let mark = self.mark();
         let r = {
             let w = self.w.as_mut().unwrap();
-            std::panic::catch_unwind(std::panic::AssertUnwindSafe(|| w.write(bs)))
+            std::panic::catch_unwind(std::panic::AssertUnwindSafe(|| match vectored {
+                None => w.write(bs),
+                Some(slices) => {
+                    let ios: Vec<std::io::IoSlice> = slices.iter().map(|s| std::io::IoSlice::new(s)).collect();
+                    w.write_vectored(&ios)
+                }
+            }))
         };
         let obs = match r {
             Err(_) => {
@@ -173,7 +193,13 @@ impl Session {
         } else {
             format!("W{}", hex(bs))
         };
-        self.record(tok, obs.clone(), mark, bs.to_vec());
+        // a vectored call that accepts no more than its first non-empty slice is a write of that
+        // slice; one that claims more is judged on the concatenation
+        let input = match (vectored, &obs) {
+            (Some(slices), Obs::Wrote(n)) if *n > bs.len() => slices.concat(),
+            _ => bs.to_vec(),
+        };
+        self.record(tok, obs.clone(), mark, input);
         obs
     }
 
@@ -184,6 +210,7 @@ impl Session {
         heartbeat(|| {
             let short = |o: &Op| match o {
                 Op::Write(b) => format!("write({} bytes)", b.len()),
+                Op::WriteV(v) => format!("write_vectored({:?} bytes)", v.iter().map(|s| s.len()).collect::<Vec<_>>()),
                 Op::WriteAll(b) => format!("write_all({} bytes)", b.len()),
                 o => format!("{:?}", o),
             };
@@ -195,6 +222,11 @@ impl Session {
             Op::Write(bs) => {
                 if self.w.is_some() {
                     self.write_once(bs);
+                }
+            }
+            Op::WriteV(slices) => {
+                if self.w.is_some() {
+                    self.write_vectored_once(slices);
                 }
             }
             Op::WriteAll(bs) => {
@@ -670,7 +702,11 @@ pub fn random_history(rng: &mut Rng, cap: usize, len: usize, with_abort: bool, w
     for _ in 0..len {
         let sz = (*rng.pick(&sizes)).min(300_000);
         let op = match rng.below(16) {
-            0..=4 => Op::Write(payload(rng, sz, kind)),
+            0..=3 => Op::Write(payload(rng, sz, kind)),
+            4 => {
+                let k = 1 + rng.usize(3);
+                Op::WriteV((0..k).map(|_| { let sz = (*rng.pick(&sizes)).min(300_000); payload(rng, sz, kind) }).collect())
+            }
             5 | 6 => Op::WriteAll(payload(rng, sz, kind)),
             7 | 8 => Op::Flush,
             9 | 10 => Op::PollUntilPending(1 + rng.below(2)),
@@ -797,7 +833,11 @@ pub fn c09(em: &mut Emit, thorough: bool, seed: u64) {
             let sz = *rng.pick(&sizes);
             let sz = if cap < 8 { sz.min(1000) } else { sz };
             ops.push(match rng.below(8) {
-                0..=3 => Op::WriteAll(payload(&mut rng, sz, kind)),
+                0..=2 => Op::WriteAll(payload(&mut rng, sz, kind)),
+                3 => {
+                    let k = 2 + rng.usize(2);
+                    Op::WriteV((0..k).map(|_| { let sz = *rng.pick(&sizes); let sz = if cap < 8 { sz.min(1000) } else { sz }; payload(&mut rng, sz, kind) }).collect())
+                }
                 4 => Op::Write(payload(&mut rng, sz, kind)),
                 5 | 6 => Op::Flush,
                 _ => Op::PollUntilPending(1),
